@@ -3,6 +3,7 @@
    `numerator[j..j+k]` are read with `slice` and written back with `splice`
    (slice index out of range = Panic, as in Rust). *)
 From RV.Model Require Import Base Word Limbs DivRecip DivSmall.
+From RV.Model Require Add.   (* algorithms::cmp = Add.limbs_cmp *)
 
 Definition get (l : list Z) (i : nat) : outcome Z :=
   match nth_error l i with Some x => Val x | None => Panic end.
@@ -64,15 +65,19 @@ Fixpoint nxm_norm_loop (k : nat) (num divisor : list Z) (n : nat) (d v : Z) : ou
 Definition div_nxm_normalized (numerator divisor : list Z) : outcome (list Z) :=
   let n := length divisor in
   if Nat.ltb n 2 then DebugPanic else                       (* debug_assert!(divisor.len() >= 2) *)
-  if Nat.ltb (length numerator) n then DebugPanic else      (* debug_assert!(numerator.len() >= divisor.len()) *)
-  if last divisor 0 <? 2 ^ 63 then DebugPanic else          (* debug_assert: last divisor limb >= 1 << 63 *)
-  if Nat.ltb (length numerator - n) 1 then DebugPanic else  (* numerator.len() - n - 1 underflows *)
-  let m := (length numerator - n - 1)%nat in
-  do d1 <- get divisor (n - 1) ;
-  do d0 <- get divisor (n - 2) ;
-  let d := join d1 d0 in
-  do v <- reciprocal_2_mg10 d ;
-  nxm_norm_loop (S m) numerator divisor n d v.
+  if negb (Nat.ltb n (length numerator)) then DebugPanic else (* debug_assert!(numerator.len() > divisor.len()) *)
+  (* debug_assert!(cmp(&numerator[numerator.len() - divisor.len()..], divisor) == Less) *)
+  match Add.limbs_cmp (skipn (length numerator - n) numerator) divisor with
+  | Lt =>
+      if last divisor 0 <? 2 ^ 63 then DebugPanic else      (* debug_assert: last divisor limb >= 1 << 63 *)
+      let m := (length numerator - n - 1)%nat in
+      do d1 <- get divisor (n - 1) ;
+      do d0 <- get divisor (n - 2) ;
+      let d := join d1 d0 in
+      do v <- reciprocal_2_mg10 d ;
+      nxm_norm_loop (S m) numerator divisor n d v
+  | _ => DebugPanic
+  end.
 
 (* ---- div_nxm ---- *)
 (* numerator.get(i).copied().unwrap_or_default() *)
